@@ -39,8 +39,8 @@ Section StepDom.
     SInv prev r acc -> decode line = Ok s -> dom_stmt s x l osq ->
     starred x = false -> nonempty x = true -> (0 <= l)%Z -> str_eqb x sPlus = false ->
     ~ In x (map fst (decl_doms prev)) ->
-    exists r' acc', read_one ct G None (TList line) acc r = (r', Ok acc') /\
-      SInv (prev ++ [s]) r' acc' /\ Later r acc r' acc'.
+    exists r' i j, (forall accR, read_one ct G None (TList line) accR r = (r', Ok (apply_delta (FDom x i j) accR))) /\
+      SInv (prev ++ [s]) r' (apply_delta (FDom x i j) acc) /\ Later r acc r' (apply_delta (FDom x i j) acc).
   Proof.
     intros [C B] Hdec Hs Hst Hne Hl Hpl Hnew.
     set (st := r_st r). set (i := length (heap st)).
@@ -114,26 +114,25 @@ Section StepDom.
     (* the if/elif chain *)
     assert (Hinst : isinst ct (r_st r1) i cd = true).
     { unfold isinst. rewrite Hi1. cbn [o_cls dobj ReaderSysA.dobj new_obj]. apply subclass_refl. }
-    pose proof (file_obj_dom ct cd cs cc cm cr i acc r1 r2 (S i) Hinst E2) as Ef. cbv zeta in Ef.
     assert (On1 : oname (r_st r1) i = x) by (unfold oname, obj_name; rewrite Hi1; reflexivity).
     assert (On2 : oname (r_st r2) (S i) = star x).
     { unfold oname, obj_name, r2. cbn [r_st with_st hold heap]. rewrite heap_mk_new, <- Len1, hget_new. reflexivity. }
-    rewrite On1, On2 in Ef.
     assert (A0 : attr_get (S i) (r_seq r2) = None).
     { change (r_seq r2) with seq1. subst seq1.
       destruct (si_attr _ _ _ _ _ _ _ _ _ C (S i)) as [A _]; [fold st; fold i; lia|].
       destruct osq as [[sq sq']|]; [|exact A]. rewrite attr_get_set.
       destruct (Nat.eqb (S i) i) eqn:E; [apply Nat.eqb_eq in E; lia | exact A]. }
-    rewrite A0 in Ef.
     set (seq3 := match osq with Some (_, sq') => attr_set (S i) sq' seq1 | None => seq1 end).
     set (r3 := mkR (hold (mk_new (r_st r1) (cls_of KindD) (star x) (KDom (star x) l) [] [] (DDom l)) (length (heap (r_st r1))))
                    seq3 (r_conc r1) (r_rate r1)).
     set (acc2 := with_dict KindD acc1 (dset (star x) (length (heap (r_st r1))) (dict_of KindD acc1))).
-    assert (Ef' : file_obj ct G (RObj i) acc r1 = (r3, Ok (acc2, [i; S i]))).
-    { rewrite Ef. change (r_seq r2) with seq1. subst seq1.
+    assert (Efg : forall accR, file_obj ct G (RObj i) accR r1 = (r3, Ok (apply_delta (FDom x i (S i)) accR, [i; S i]))).
+    { intros accR. pose proof (file_obj_dom ct cd cs cc cm cr i accR r1 r2 (S i) Hinst E2) as Ef. cbv zeta in Ef.
+      rewrite On1, On2, A0 in Ef. rewrite Ef. change (r_seq r2) with seq1. subst seq1.
       destruct Hs as [[-> ->]|[sq [chk [sq' [-> [-> [-> [Hchk Hrc]]]]]]]].
       - destruct (si_attr _ _ _ _ _ _ _ _ _ C i) as [A _]; [fold st; fold i; lia|]. rewrite A. reflexivity.
       - rewrite attr_get_set, Nat.eqb_refl, Hrc. reflexivity. }
+    assert (Ef' : file_obj ct G (RObj i) acc r1 = (r3, Ok (acc2, [i; S i]))) by exact (Efg acc).
     (* the second object *)
     destruct (core_add ct cd cs cc cm cr CO (prev ++ [s]) (prev ++ [s]) r1 acc1 KindD (star x) (KDom (star x) l) [] []
                 (DDom l) seq3 (r_conc r1) (r_rate r1) C1 ltac:(discriminate)) as [C2 L2].
@@ -150,13 +149,15 @@ Section StepDom.
     { intros n0 names0 sst0 Hin. left. exact Hin. }
     fold r3 in C2, L2. fold acc2 in C2, L2.
     (* release *)
-    pose proof (read_one_ok ct cd cs cc cm cr line s acc r r1 (RObj i) r3 (acc2, [i; S i]) Hdec Ex Ef') as E3.
-    cbn [fst snd] in E3. fold st in E3.
     assert (Ecut : cut_roots (r_st r3) (length (roots st)) [i; S i] = r_st r3).
     { assert (Er : roots (r_st r3) = (roots st ++ [Some i]) ++ [Some (S i)]) by reflexivity.
       unfold cut_roots. rewrite Er. cbn [map]. rewrite roots_cut2, <- Er. destruct (r_st r3); reflexivity. }
-    rewrite Ecut, (collect_id ct _ (si_sok _ _ _ _ _ _ _ _ _ C2)), with_st_id in E3.
-    exists r3, acc2. split; [exact E3|].
+    assert (E3 : forall accR, read_one ct G None (TList line) accR r = (r3, Ok (apply_delta (FDom x i (S i)) accR))).
+    { intros accR.
+      pose proof (read_one_ok ct cd cs cc cm cr line s accR r r1 (RObj i) r3 _ Hdec Ex (Efg accR)) as E3.
+      cbn [fst snd] in E3. fold st in E3.
+      rewrite Ecut, (collect_id ct _ (si_sok _ _ _ _ _ _ _ _ _ C2)), with_st_id in E3. exact E3. }
+    exists r3, i, (S i). split; [exact E3|]. change (apply_delta (FDom x i (S i)) acc) with acc2.
     assert (L : Later r acc r3 acc2) by (eapply later_trans; eauto).
     split; [|exact L]. split; [exact C2|].
     intros s0 Hs0. apply in_app_or in Hs0. destruct Hs0 as [Hs0|[<-|[]]].
